@@ -67,9 +67,26 @@ theorem claimDecision_route (n : NodeW) (p k : Nat) (pre : Bool) : claimDecision
 
 /-! ### fails -/
 
+theorem monLists_eq_false (c : ChanW) (s : Src) : c.monLists s = false ↔ ∀ h ∈ c.monHtlcs, h.src ≠ s := by
+  unfold ChanW.monLists
+  rw [List.any_eq_false]
+  constructor
+  · intro h m hm; simpa using h m hm
+  · intro h m hm; simpa using h m hm
+
+theorem monLists_eq_true (c : ChanW) (s : Src) : c.monLists s = true ↔ ∃ h ∈ c.monHtlcs, h.src = s := by
+  unfold ChanW.monLists
+  rw [List.any_eq_true]
+  constructor
+  · rintro ⟨m, hm, he⟩; exact ⟨m, hm, by simpa using he⟩
+  · rintro ⟨m, hm, he⟩; exact ⟨m, hm, by simp [he]⟩
+
+/-- membership in the stale fail-backs, with the `dropped_outbound_htlcs` decision left as the GENERATED predicate (Props/C10 unfolds it:
+    the property theorem, not this lemma, is what breaks when the guard disappears from the Rust text) -/
 theorem mem_staleFailsOf (c : ChanW) (s : Src) (r : FailReason) :
     (s, r) ∈ staleFailsOf c ↔
-      c.stale = true ∧ r = .channelClosed ∧ (s ∈ c.mgrDropped ∨ (s ∈ c.mgrPending ∧ ∀ h ∈ c.monHtlcs, h.src ≠ s)) := by
+      c.stale = true ∧ r = .channelClosed ∧
+        ((s ∈ c.mgrDropped ∧ droppedHtlcFailed (c.monLists s) = true) ∨ (s ∈ c.mgrPending ∧ ∀ h ∈ c.monHtlcs, h.src ≠ s)) := by
   unfold staleFailsOf
   cases hs : c.stale with
   | false => simp
@@ -80,17 +97,29 @@ theorem mem_staleFailsOf (c : ChanW) (s : Src) (r : FailReason) :
       refine ⟨rfl, ?_⟩
       rcases ha with ha | ⟨ha, hn⟩
       · exact Or.inl ha
-      · refine Or.inr ⟨ha, fun h hh he => ?_⟩
-        have : c.monHtlcs.any (fun h => h.src == a) = true := List.any_eq_true.mpr ⟨h, hh, by simp [he]⟩
-        rw [this] at hn; cases hn
+      · refine Or.inr ⟨ha, (monLists_eq_false c a).mp ?_⟩
+        simpa using hn
     · rintro ⟨rfl, hx⟩
       refine ⟨s, ?_, rfl, rfl⟩
       rcases hx with hx | ⟨hx, hn⟩
       · exact Or.inl hx
       · refine Or.inr ⟨hx, ?_⟩
-        have : c.monHtlcs.any (fun h => h.src == s) = false := by
-          rw [List.any_eq_false]; intro h hh; simpa using hn h hh
-        simp [this]
+        simp [(monLists_eq_false c s).mpr hn]
+
+/-- a `ChannelClosed` fail decision of the read comes from the stale branch of some channel (the closed-channel block fails with OnChainTimeout) -/
+theorem mem_fails_channelClosed (n : NodeW) (s : Src) :
+    (s, FailReason.channelClosed) ∈ fails n ↔ ∃ c ∈ n.chans, (s, FailReason.channelClosed) ∈ staleFailsOf c := by
+  unfold fails
+  rw [List.mem_append, List.mem_flatMap, List.mem_flatMap]
+  constructor
+  · rintro (h | ⟨c, _, hc⟩)
+    · exact h
+    · exfalso
+      unfold onchainFailsOf at hc
+      split at hc
+      · obtain ⟨_, _, he⟩ := List.mem_map.mp hc; cases he
+      · cases hc
+  · intro h; exact Or.inl h
 
 /-! ### queued forwards -/
 
